@@ -16,7 +16,7 @@ from harness import core
 CH = {1: 'a', 2: ' ', 3: '"', 4: "'", 5: '#', 6: '\\', 7: 'é', 8: '@[S]@', 9: '=', 10: ')', 11: 'VAL', 12: '-contents-of'}
 SEP = '--SEP--'
 LINE_KINDS = {1: 'text line', 2: 'a @[S]@ b', 3: 'EOF ', 4: ' EOF', 5: '[setup]', 6: '# not a comment', 7: '',
-              8: '"a\' b', 9: 'EOFX'}
+              8: '"a\' b', 9: 'EOFX', 10: '   ', 11: '\t'}
 LINE_VALUE = dict(LINE_KINDS)
 LINE_VALUE[2] = 'a VAL b'
 
@@ -276,7 +276,7 @@ def run(ctx):
     ctx.cov['traces_validated_against_impl'] += len(rprobes)
     ctx.cov['replay']['symbol references']['disagreements'] = rbad
     # here-documents
-    kinds = list(range(1, 10))
+    kinds = list(range(1, 12))
     hl = 3 if quick else 4
     hmc = ctx.tlc('HereDoc', heredoc_cfg(kinds, hl), coverage=True, name='mc-heredoc')
     ctx.require_coverage(hmc, ['ReadLine', 'ReadMarker'])
@@ -312,7 +312,7 @@ def run(ctx):
     ctx.cov['exhaustive'] = True
     ctx.cov['rule'] = ('every source of length <= %d over {a, blank, ", \', #, \\, e-acute, @[S]@, =, )} and of length '
                        '<= %d over {a, blank, ", \', @[S]@}, each as LIST (argv of a real process), STRING and :> text; '
-                       'every here-document body of <= %d lines over 9 line kinds, with and without end marker; '
+                       'every here-document body of <= %d lines over 11 line kinds, with and without end marker; '
                        'every source of length <= %d over {@, [, ], S, -} (one longer over {@, [, ], S}) as :> text and soft-quoted string (8 symbols '
                        'S..SSSSSSSS defined); '
                        'non-trivial = distinct (context, source) containing a quote, #, \\, reference or reserved word'
